@@ -1935,6 +1935,201 @@ noblock_case(long idx, vf_rng *r)
 	}
 }
 
+// ------------------------------------------------------------------ join mode
+// Pipes that arrive on one socket at the same instant through different
+// endpoints (their start callbacks run on different threads): once all of them
+// are up - both ends of every connection have their pipe, the library is
+// quiescent - every peer must be offered what the hub sends (queues are empty:
+// nothing may be dropped), and the hub must be offered what every peer sends.
+typedef struct {
+	nng_socket   s;
+	nng_listener l;
+	nng_dialer   d;
+	char         url[128];
+} jpeer;
+
+static void *
+join_dial_thread(void *arg)
+{
+	jpeer *p = arg;
+	(void) nng_dialer_start(p->d, NNG_FLAG_NONBLOCK);
+	return NULL;
+}
+
+// "Not delivered" must not depend on how fast this machine is.  inproc: the
+// message travels on library threads only, so once the library is quiescent
+// (no task queued or running, twice, 20 ms apart) a non-blocking receive that
+// still finds nothing is final.  ipc/tcp: bytes may sit in the kernel while
+// every library thread is idle, so the receive waits - 15 s, far beyond any
+// stall seen on a loaded machine.
+static int
+join_recv(nng_socket s, nng_msg **mp, int tran)
+{
+	if (tran != VF_T_INPROC) return nng_recvmsg(s, mp, 0);
+	uint64_t end = vf_now_ns() + 15000000000ULL;
+	for (;;) {
+		int rv = nng_recvmsg(s, mp, NNG_FLAG_NONBLOCK);
+		if (rv != NNG_EAGAIN) return rv;
+		if (vf_quiesce(1, 100)) {
+			vf_msleep(20);
+			if (vf_quiesce(1, 100)) return nng_recvmsg(s, mp, NNG_FLAG_NONBLOCK);
+		}
+		if (vf_now_ns() > end) return nng_recvmsg(s, mp, NNG_FLAG_NONBLOCK);
+		vf_usleep(200);
+	}
+}
+
+static void
+join_case(long idx, vf_rng *r)
+{
+	enum { JMAX = 12 };
+	jpeer      P[JMAX];
+	nng_socket hub;
+	int        n       = (int) vf_range(r, 3, JMAX);
+	bool       hubdial = vf_chance(r, 1, 2); // the hub dials its peers, or listens for them on n listeners
+	bool       threads = vf_chance(r, 1, 2); // endpoints started from n threads at once, or in a tight loop
+	int        tran    = (int[]){ VF_T_INPROC, VF_T_INPROC, VF_T_INPROC, VF_T_IPC, VF_T_TCP }[vf_below(r, 5)];
+	int        rounds  = vf_tier ? 150 : 60;
+	const char *role   = hubdial ? "hub-dials" : "hub-listens";
+	vf_case_begin(idx, "join: hub with %d peers over %s, %s, endpoints started %s, %d rounds", n, vf_tran_names[tran], role, threads ? "from threads" : "in a loop", rounds);
+	for (int round = 0; round < rounds; round++) {
+		pthread_t th[JMAX];
+		if (nng_bus0_open(&hub) != 0) vf_harness_fail("bus open");
+		nng_socket_set_int(hub, NNG_OPT_RECVBUF, 64);
+		nng_socket_set_ms(hub, NNG_OPT_RECVTIMEO, 15000);
+		nng_socket_set_ms(hub, NNG_OPT_RECONNMINT, 5);
+		nng_socket_set_ms(hub, NNG_OPT_RECONNMAXT, 20);
+		for (int i = 0; i < n; i++) {
+			if (nng_bus0_open(&P[i].s) != 0) vf_harness_fail("bus open");
+			nng_socket_set_ms(P[i].s, NNG_OPT_RECVTIMEO, 15000);
+			nng_socket_set_ms(P[i].s, NNG_OPT_RECONNMINT, 5);
+			nng_socket_set_ms(P[i].s, NNG_OPT_RECONNMAXT, 20);
+			vf_url(tran, P[i].url, sizeof(P[i].url));
+			// the listening side first
+			nng_socket ls = hubdial ? P[i].s : hub;
+			if (nng_listener_create(&P[i].l, ls, P[i].url) != 0 || nng_listener_start(P[i].l, 0) != 0) vf_harness_fail("join listen %s", P[i].url);
+			if (tran == VF_T_TCP) {
+				// port 0: take the bound address
+				char du[128];
+				if (vf_dial_url(P[i].l, tran, P[i].url, du, sizeof(du)) != 0) vf_harness_fail("join dial url");
+				snprintf(P[i].url, sizeof(P[i].url), "%s", du);
+			}
+		}
+		for (int i = 0; i < n; i++) {
+			nng_socket ds = hubdial ? hub : P[i].s;
+			if (nng_dialer_create(&P[i].d, ds, P[i].url) != 0) vf_harness_fail("join dialer %s", P[i].url);
+		}
+		if (threads) {
+			for (int i = 0; i < n; i++) pthread_create(&th[i], NULL, join_dial_thread, &P[i]);
+			for (int i = 0; i < n; i++) pthread_join(th[i], NULL);
+		} else {
+			for (int i = 0; i < n; i++) (void) nng_dialer_start(P[i].d, NNG_FLAG_NONBLOCK);
+		}
+		// everybody connected?
+		bool     up  = false;
+		uint64_t end = vf_now_ns() + 5000000000ULL;
+		while (vf_now_ns() < end) {
+			int ok = vf_pipe_count(hub) == n;
+			for (int i = 0; ok && i < n; i++) ok = vf_pipe_count(P[i].s) == 1;
+			if (ok && vf_quiesce(1, 200)) {
+				up = true;
+				break;
+			}
+			vf_usleep(300);
+		}
+		if (!up) {
+			vf_stat("join_rounds_not_connected_in_5s", 1);
+		} else {
+			vf_stat("join_rounds", 1);
+			vf_stat("join_pipes", n);
+			// hub -> every peer, three messages
+			for (uint32_t k = 0; k < 3; k++) {
+				nng_msg *m;
+				if (nng_msg_alloc(&m, 0) != 0) vf_harness_fail("msg");
+				nng_msg_append_u32(m, 0x4a4f494eu);
+				nng_msg_append_u32(m, (uint32_t) round);
+				nng_msg_append_u32(m, k);
+				if (nng_sendmsg(hub, m, 0) != 0) {
+					nng_msg_free(m);
+					vf_harness_fail("join hub send");
+				}
+			}
+			for (int i = 0; i < n; i++) {
+				for (uint32_t k = 0; k < 3; k++) {
+					nng_msg *m  = NULL;
+					int      rv = join_recv(P[i].s, &m, tran);
+					uint32_t a = 0, b = 0, c = 0;
+					if (rv == 0 && nng_msg_len(m) == 12) {
+						nng_msg_trim_u32(m, &a);
+						nng_msg_trim_u32(m, &b);
+						nng_msg_trim_u32(m, &c);
+					}
+					if (m != NULL) nng_msg_free(m);
+					if (rv == 0 && a == 0x4a4f494eu && b == (uint32_t) round && c == k) {
+						vf_stat("join_deliveries_checked", 1);
+						continue;
+					}
+					// still connected on both sides? (a lost connection may lose messages)
+					if (vf_pipe_count(hub) == n && vf_pipe_count(P[i].s) == 1) {
+						char key[96];
+						snprintf(key, sizeof(key), "C09/not-offered/concurrent-join/%s", role);
+						vf_violation(key, "hub with %d peers over %s (%s, endpoints started %s), round %d: peer %d %s message %u of 3 sent after all %d connections were up on both sides and the library was quiescent (queues empty): a connected peer was not offered the message", n, vf_tran_names[tran], role,
+						    threads ? "from threads" : "in a loop", round, i, rv != 0 ? "did not receive" : "received something else instead of", k, n);
+						if (getenv("C09_DIAG") != NULL) {
+							nng_stat *st = NULL;
+							if (nng_stats_get(&st) == 0) {
+								const nng_stat *ss = nng_stat_find_socket(st, hub);
+								if (ss != NULL) nng_stats_dump(ss);
+								ss = nng_stat_find_socket(st, P[i].s);
+								if (ss != NULL) nng_stats_dump(ss);
+								fflush(stdout);
+								nng_stats_free(st);
+							}
+						}
+					} else {
+						vf_stat("join_connection_lost_mid_round", 1);
+					}
+					break;
+				}
+			}
+			// every peer -> hub, one message each
+			for (int i = 0; i < n; i++) {
+				nng_msg *m;
+				if (nng_msg_alloc(&m, 0) != 0) vf_harness_fail("msg");
+				nng_msg_append_u32(m, 0x50454552u);
+				nng_msg_append_u32(m, (uint32_t) i);
+				if (nng_sendmsg(P[i].s, m, 0) != 0) nng_msg_free(m);
+			}
+			bool seen[JMAX] = { 0 };
+			int  got        = 0;
+			for (int i = 0; i < n; i++) {
+				nng_msg *m = NULL;
+				if (join_recv(hub, &m, tran) != 0) break;
+				uint32_t a = 0, b = 0;
+				if (nng_msg_len(m) == 8) {
+					nng_msg_trim_u32(m, &a);
+					nng_msg_trim_u32(m, &b);
+				}
+				nng_msg_free(m);
+				if (a == 0x50454552u && b < (uint32_t) n && !seen[b]) {
+					seen[b] = true;
+					got++;
+				}
+			}
+			if (got != n && vf_pipe_count(hub) == n) {
+				char key[96];
+				snprintf(key, sizeof(key), "C09/not-offered/concurrent-join/%s/to-hub", role);
+				vf_violation(key, "hub with %d peers over %s (%s), round %d: the hub received the message of %d of %d connected peers (receive buffer 64, queues empty)", n, vf_tran_names[tran], role, round, got, n);
+			} else {
+				vf_stat("join_hub_receives_checked", got);
+			}
+			vf_class("join/%s/%s/n=%d/%s", role, vf_tran_names[tran], n, threads ? "threads" : "loop");
+		}
+		nng_socket_close(hub);
+		for (int i = 0; i < n; i++) nng_socket_close(P[i].s);
+	}
+}
+
 // ------------------------------------------------------------------ main
 int
 main(int argc, char **argv)
@@ -1953,6 +2148,8 @@ main(int argc, char **argv)
 			raw_case(idx, &r);
 		} else if (!strcmp(vf_mode, "noblock")) {
 			noblock_case(idx, &r);
+		} else if (!strcmp(vf_mode, "join")) {
+			join_case(idx, &r);
 		} else {
 			mesh_case(idx, &r);
 		}
